@@ -1,4 +1,149 @@
-/- Model driver for C20 (stub: not built yet). -/
+/-
+Model driver for C20.  Same op lines as harness/c20.cpp and harness/c20_diff.cpp:
+  apply <entry> <handlers> <items...>   -> event log of Osmium.Dispatch.apply
+  filt <Class> <c|m|r> <items...>       -> "<count>: <positions>" of ItemIter.run / InIter.run
+  diff <entry> <nh> <tokens...>         -> DiffIter.run / applyDiff
+-/
+import Osmium.Model.Dispatch
 import Driver.Common
 
-def main : IO Unit := pure ()
+open Osmium.Dispatch Osmium.Generated.C20 Driver
+
+def typeOfChar : Char → Option ItemType
+  | 'X' => some .undefined | 'n' => some .node | 'w' => some .way | 'r' => some .relation
+  | 'a' => some .area | 'c' => some .changeset | 'T' => some .tagList | 'N' => some .wayNodeList
+  | 'M' => some .relationMemberList | 'F' => some .relationMemberListFull | 'O' => some .outerRing
+  | 'I' => some .innerRing | 'D' => some .changesetDiscussion | _ => none
+
+def cbName : Callback → String
+  | .osmObject => "osm_object" | .node => "node" | .way => "way" | .relation => "relation"
+  | .area => "area" | .changeset => "changeset" | .tagList => "tag_list"
+  | .wayNodeList => "way_node_list" | .relationMemberList => "relation_member_list"
+  | .outerRing => "outer_ring" | .innerRing => "inner_ring"
+  | .changesetDiscussion => "changeset_discussion" | .flush => "flush"
+
+def parseItem (s : String) : Option Item :=
+  match s.toList with
+  | [c] => (typeOfChar c).map fun t => { ty := t, removed := false }
+  | [c, '-'] => (typeOfChar c).map fun t => { ty := t, removed := true }
+  | _ => none
+
+/-- split the token list at "|" -/
+def groups (ws : List String) : List (List String) :=
+  ws.foldr (fun w acc =>
+    if w == "|" then [] :: acc
+    else match acc with
+      | [] => [[w]]
+      | g :: rest => (w :: g) :: rest) [[]]
+
+def parseLeaf : String → Option Leaf
+  | "S" => some .static | "D" => some .dyn | "Df" => some .dynFn | "D0" => some .dynUnset | _ => none
+
+def parseSig (c : Char) : Option Sig :=
+  let p : Option Param := match c.toLower with
+    | 'n' => some .node | 'w' => some .way | 'r' => some .relation | 'a' => some .area
+    | 'c' => some .changeset | 'o' => some .object | 'e' => some .entity | 'i' => some .item
+    | 'g' => some .generic | _ => none
+  p.map fun p => { param := p, nonConst := c.isUpper }
+
+def parseHandler (s : String) : Option Handler :=
+  match parseLeaf s with
+  | some l => some (.leaf l)
+  | none =>
+    match s.toList with
+    | ['L', c] => (parseSig c).map .lambda
+    | 'C' :: ':' :: rest => ((String.ofList rest).splitOn "+").mapM parseLeaf |>.map .chain
+    | _ => none
+
+def isChain : Handler → Bool
+  | .chain _ => true
+  | _ => false
+
+def parseEntry : String → Option (Source × ItemClass × Constness)
+  | "bec" => some (.filtered, .entity, .const) | "bem" => some (.filtered, .entity, .mut)
+  | "fic" => some (.filtered, .item, .const) | "fim" => some (.filtered, .item, .mut)
+  | "fec" => some (.filtered, .entity, .const) | "fem" => some (.filtered, .entity, .mut)
+  | "foc" => some (.filtered, .object, .const) | "fom" => some (.filtered, .object, .mut)
+  | "xec" => some (.raw, .entity, .const) | "xem" => some (.raw, .entity, .mut)
+  | "xoc" => some (.raw, .object, .const) | "xom" => some (.raw, .object, .mut)
+  | "rim" => some (.reader, .item, .mut) | "rem" => some (.reader, .entity, .mut)
+  | "rom" => some (.reader, .object, .mut)
+  | "Rim" => some (.reader, .item, .mut)
+  | _ => none
+
+def showEvent (e : Event) : String :=
+  match e.pos with
+  | some p => s!"{e.h}.{e.sub}:{cbName e.cb}{if e.nonConst then "!" else ""}:{p}"
+  | none => s!"{e.h}.{e.sub}:{cbName e.cb}"
+
+def showLog (evs : List String) (thrown : Bool) : String :=
+  let body := if evs.isEmpty then "-" else " ".intercalate evs
+  if thrown then body ++ " !unknown_type" else body
+
+def parseFilterClass : String → Option FilterClass
+  | "Item" => some .item | "OSMEntity" => some .entity | "OSMObject" => some .object
+  | "Node" => some .node | "Way" => some .way | "Relation" => some .relation | "Area" => some .area
+  | "Changeset" => some .changeset | "TagList" => some .tagList | "WayNodeList" => some .wayNodeList
+  | "RelationMemberList" => some .relationMemberList | "OuterRing" => some .outerRing
+  | "InnerRing" => some .innerRing | "ChangesetDiscussion" => some .changesetDiscussion | _ => none
+
+/-- diff tokens: objects `t:id:v`, fillers (single type char) -/
+def parseDiffTok (s : String) : Option (Option Obj) :=
+  match s.splitOn ":" with
+  | [t, id, v] =>
+    let ty : Option Nat := match t with
+      | "n" => some 1 | "w" => some 2 | "r" => some 3 | "a" => some 4 | _ => none
+    match ty, id.toInt?, v.toNat? with
+    | some ty, some id, some v => some (some ⟨ty, id, v⟩)
+    | _, _, _ => none
+  | [t] =>
+    match t.toList with
+    | [c] => if c == 'n' || c == 'w' || c == 'r' || c == 'a' then none
+             else (typeOfChar c).map fun _ => none
+    | _ => none
+  | _ => none
+
+def showDiff (posmap : Array Nat) (d : Diff) : String :=
+  let g (i : Nat) : String := toString (posmap.getD i 0)
+  s!"{g d.prev},{g d.curr},{g d.next},{b01 d.first},{b01 d.last}"
+
+def dcbName : DiffCb → String
+  | .node => "node" | .way => "way" | .relation => "relation"
+
+def step (line : String) : String :=
+  match words line with
+  | "apply" :: entry :: hs :: items =>
+    match parseEntry entry, (hs.splitOn ",").mapM parseHandler, (groups items).mapM (·.mapM parseItem) with
+    | some (src, cls, k), some hs, some bufs =>
+      if k == .const && hs.any isChain then "bad-op"
+      else
+        let r := apply src cls k hs bufs
+        showLog (r.1.map showEvent) r.2
+    | _, _, _ => "bad-op"
+  | "filt" :: cls :: mode :: items =>
+    match parseFilterClass cls, (groups items).mapM (·.mapM parseItem) with
+    | some fc, some bufs =>
+      let nb := number bufs
+      let visited := if mode == "r" then InIter.run fc nb else ItemIter.run fc nb.flatten
+      s!"{visited.length}:" ++ String.join (visited.map fun p => s!" {p.1}")
+    | _, _ => "bad-op"
+  | "diff" :: entry :: nh :: toks =>
+    match (toks.filter (· ≠ "|")).mapM parseDiffTok, nh.toNat? with
+    | some ts, some nh =>
+      let withPos := indexed ts
+      let objs := withPos.filterMap fun p => p.2.map fun o => (p.1, o)
+      let xs := objs.map (·.2)
+      let posmap := (objs.map (·.1)).toArray
+      if entry == "it" || entry == "itc" || entry == "itr" then
+        let r := DiffIter.run xs
+        showLog (r.map fun d => match d with
+          | some d => showDiff posmap d
+          | none => "out-of-range") false
+      else if entry == "ad" || entry == "adc" || entry == "adr" then
+        let r := applyDiff xs nh
+        showLog (r.1.map fun e => s!"{e.h}:{dcbName e.cb}:{showDiff posmap e.d}") r.2
+      else "bad-op"
+    | _, _ => "bad-op"
+  | _ => "bad-op"
+
+def main : IO Unit := loopPure step
